@@ -77,6 +77,30 @@ def pk_cases(rnd, n):
     return cases
 
 
+def pk_monitor(lines, out):
+    """"a sequence of 4-byte big-endian length-prefixed pickles, one per line": every message is a length prefix followed by a
+    pickle that CPython decodes to [(name, (timestamp, value))] of its line"""
+    import pickle as _pk
+    import struct as _st
+    for l, o in zip(lines, out):
+        f = l.split()
+        name = b"" if f[0] == "-" else bytes.fromhex(f[0])
+        ts, bits = int(f[1]), int(f[2])
+        raw = bytes.fromhex(o.split(" | ")[0])
+        if len(raw) < 4 or _st.unpack(">I", raw[:4])[0] != len(raw) - 4:
+            return "the length prefix of the message for %r does not cover the pickle that follows" % name[:40]
+        try:
+            obj = _pk.loads(raw[4:], encoding="latin-1")
+            (n2, (t2, v2)), = obj
+        except Exception as e:
+            return "python cannot unpickle the message for %r: %s" % (name[:40], e)
+        vb = _st.unpack(">Q", _st.pack(">d", v2))[0] if isinstance(v2, float) else None
+        nan = vb is not None and (vb >> 52) & 0x7FF == 0x7FF and (bits >> 52) & 0x7FF == 0x7FF and (vb & 0xFFFFFFFFFFFFF) and (bits & 0xFFFFFFFFFFFFF)
+        if n2 != name.decode("latin-1") or t2 != ts or not (vb == bits or nan):
+            return "the message for (%r, %d, bits %d) decodes in python to %r" % (name[:40], ts, bits, obj)
+    return None
+
+
 def dest_cases(rnd, n, exact):
     cases = []
     for i in range(n):
@@ -196,7 +220,7 @@ def run(ctx):
                                   "Crng.Props.C05.healthy_lines", "Crng.Props.C05.pickle_frame", "Crng.Pk.unpickle_pickle"])
     ctx.stream("bufwriter", "bw", bw_cases(ctx.rng("bw"), ctx.scale(1500, 30000)), monitor=bw_monitor,
                classify=lambda l, o: "script" if any(x.startswith("script") for x in l) else "healthy")
-    ctx.stream("pickle-bytes", "pk", pk_cases(ctx.rng("pk"), ctx.scale(1500, 20000)), canon=lambda ls: [l.split(" | ")[0] for l in ls])
+    ctx.stream("pickle-bytes", "pk", pk_cases(ctx.rng("pk"), ctx.scale(1500, 20000)), canon=lambda ls: [l.split(" | ")[0] for l in ls], monitor=pk_monitor, shrink=False)
     ctx.stream("dest-exact", "dest", dest_cases(ctx.rng("dx"), ctx.scale(25, 300), True), monitor=dest_monitor, shrink=False,
                canon=lambda ls: [l for l in ls if not l.startswith("maxhandoff_ms")],
                classify=lambda l, o: "pickle" if l[0].split()[1] == "1" else "plain")
